@@ -23,6 +23,8 @@ class Atoms:
         self.n = 0
 
     def new(self, name, free=False, upper=(), origin=None):
+        if free and any(Size.of(u, self).is_const() and Size.of(u, self).const() == 1 for u in upper):
+            return Size.of(1, self)          # 1 <= atom <= 1
         base, k = name, 0
         while name in self.value:
             k += 1
